@@ -15,19 +15,23 @@ SeedN == atoi(IOEnv.KV_SEED)
 Full == Tier = "thorough"
 Depth == 3
 
-Names == {"a", "@a", "@@a", "@", "default", "@B", "b", "@ä b", "\"q\"", "@x'y", "a@", "@a@"}
-C(op, file, name) == [op |-> op, file |-> file, name |-> name]
+Names == {"a", "@a", "@@a", "@", "default", "@B", "b", "@ä b", "\"q\"", "@x'y", "a@", "@a@", "A"}
+C(op, file, name) == [op |-> op, file |-> file, name |-> name, answer |-> ""]
+Ask(ans) == [C("clearask", "", "") EXCEPT !.answer = ans]
 Muts == {C("set", Files[i], n) : i \in 1..Len(Files), n \in Names}
         \cup {C("setdefault", Files[i], "") : i \in 1..Len(Files)}
         \cup {C("unset", "", n) : n \in Names}
         \cup {C("clear", "", "")}
+        \cup {Ask(a) : a \in {"y", "y\n", "Y\r\n", "n\n", "yes\n", "\ny\n", ""}}
 (* quick tier: a seed-rotated third of the mutations at depth >= 2 *)
 H(c) == Len(c.file) + 3 * Len(c.name) + (IF c.op = "unset" THEN 1 ELSE 0)
-Allowed(c, k) == k = 0 \/ (H(c) + SeedN + k) % (IF Full THEN 3 ELSE 12) = 0 \/ c.op = "clear"
+Allowed(c, k) == k = 0 \/ (H(c) + SeedN + k) % (IF Full THEN 3 ELSE 16) = 0 \/ c.op = "clear"
+                 \/ (c.op = "clearask" /\ (Len(c.answer) + SeedN + k) % 3 = 0)
 
 Observers(d) == <<C("list", "", "")>>
                 \o [i \in 1..2 |-> C("info", "", <<"@a", "default">>[i])]
-                \o <<C("resolve", "", "a"), C("resolve", "", "ä b"), C("resolvedefault", "", "")>>
+                \o <<C("resolve", "", "a"), C("resolve", "", "ä b"), C("resolvedefault", "", ""),
+                     C("info", "", "@b"), C("resolve", "", "A"), C("resolvemix", "", "a"), C("resolvemix2", "", "default")>>
 
 Init == db = EmptyDb /\ hist = <<>>
 Next == /\ Len(hist) < Depth
@@ -43,7 +47,7 @@ FileMap == [i \in 1..Len(Files) |-> Files[i]]
 CaseOf(h) == LET st == Steps(h, 1) IN
              [kind |-> "cli", parse |-> FALSE, repeat |-> 1, cfg |-> "",
               files |-> [f \in {Files[i] : i \in 1..Len(Files)} |-> "2020-01-01\n    " \o NatStr(FileMinutes(f) \div 60) \o "h\n"],
-              cmds |-> [i \in 1..Len(st) |-> [args |-> ToArgs(st[i]), now |-> "2020-01-01T12:00:00", ticks |-> <<>>, cmd |-> st[i]]]]
+              cmds |-> [i \in 1..Len(st) |-> [args |-> ToArgs(st[i]), now |-> "2020-01-01T12:00:00", ticks |-> <<>>, cmd |-> st[i], stdin |-> st[i].answer]]]
 
 Emit == Len(hist') = Depth =>
             Serialize(ToJson(CaseOf(hist')) \o "\n", Out,
